@@ -15,23 +15,27 @@ No well-formedness of `body` is needed for this: it follows from byte conservati
 (`parser_conserves`, proved once for ALL programs, so it also covers whatever the translator regenerates) plus
 `expectZeroSize` and the drain on kafka errors (`discardOnKafkaError`, the D2 fix).
 
-Operations outside that theorem, and why:
-  * listOffsets (`readOffset`): returns the kafka error from inside the partition loop without a drain; aligned only
-    because a list-offsets response to a one-partition request has one topic with one partition, the error code being
-    followed by the two int64 of the same entry: `listOffsets_aligned_wf` (∀ topic name, partition, error code,
-    timestamp, offset, trailing bytes — for the regenerated operation by `listOffsets_gen_shape`);
-    `listOffsets_two_partitions_counterexample` shows why the shape hypothesis is needed, `listOffsets_wf_example`
-    is a concrete instance.
-  * fetch (`ReadBatchWith`/`Batch`): `fetch_aligned_or_closed`, for every message-set reader that conserves bytes, with
-    the hypothesis that a response at the high watermark carries an empty set (`fetch_at_watermark_counterexample`).
-  * apiVersions: no `expectZeroSize`, no close on error in the Go code, so nothing can be said about arbitrary bytes;
-    `apiVersions_aligned_wf`: on every well-formed v0 frame (any error code, any number of entries, anything after
-    the frame) the result is ok / that kafka error and exactly the frame is consumed.
+Operations that needed more than the table entry, and why:
+  * listOffsets (`readOffset`): inside the main theorems since the fix C11-D34 (the kafka error left the partition
+    loop without a drain: `listOffsets_two_partitions_counterexample` keeps that shape); `listOffsets_aligned_wf`
+    adds that every frame of the shape a broker answers a one-partition request with (∀ topic name, partition, error
+    code, timestamp, offset, trailing bytes) gives ok / that kafka error with exactly the frame consumed — for the
+    regenerated operation by `listOffsets_gen_shape`; `listOffsets_wf_example` is a concrete instance.
+  * fetch (`ReadBatchWith`/`Batch`): `fetch_aligned_or_closed`, for every message-set reader that conserves bytes (the
+    hypothesis is discharged for the reader stack of message_reader.go: `stackBody_conserves`); unconditional since the
+    fix C11-D32 (`fetch_at_watermark_counterexample` keeps the unfixed shape).
+  * apiVersions: inside the main theorems since the fix C11-D33 (`expectZeroSize` and close on non-kafka errors, both
+    regenerated; before it nothing could be said about arbitrary bytes: `apiVersions_trailing_counterexample`);
+    `apiVersions_aligned_wf` adds that on every well-formed v0 frame (any error code, any number of entries, anything
+    after the frame) the result is ok / that kafka error and exactly the frame is consumed — the count of entries is
+    checked before the loop (`.arrB 6`, regenerated from `arrSize < 0 || int(arrSize) > size/6`).
 The D2 shape (no drain) is kept as `d2_regression_counterexample`: the theorem is false for it.
 -/
 import KafkaVerif.Lemmas.ConnOps
+import KafkaVerif.Lemmas.ConnLocal
 import KafkaVerif.Model.ConnSpecs
 import KafkaVerif.Spec.ConnFrames
+import KafkaVerif.Model.ReaderStack
 
 namespace KV.C11
 open KV KV.Reader KV.ConnOps
@@ -114,10 +118,45 @@ theorem next_op_as_fresh (o : OpSpec) (v : Nat) (topic : Bytes) (c : Conn) (hdr 
   · rw [h.2]
   · rw [h.1] at hnf; cases hnf
 
+/-- **no byte of another response is ever looked at**: for EVERY operation (good or not), every version and every
+body, the result of an exchange is a function of the bytes of its own frame alone, and whatever follows the frame on
+the stream is still there, untouched, after whatever part of the frame was left unread.  (Locality of every parser
+program: `runSteps_local`, by the same mutual induction as conservation.) -/
+theorem result_depends_only_on_frame (o : OpSpec) (v : Nat) (topic : Bytes) (c : Conn) (hdr body rest : Bytes)
+    (hopen : c.closed = false)
+    (hstream : c.stream = hdr ++ body ++ rest) (hlen : hdr.length = 8)
+    (hsize : beInt (hdr.take 4) = body.length + 4) (hid : beInt (hdr.drop 4) = c.nextId) :
+    (connDo o v topic c).1 = (opRead o v topic ⟨body, body.length⟩).1 ∧
+    (connDo o v topic c).2.stream = (opRead o v topic ⟨body, body.length⟩).2.inp ++ rest := by
+  have hw := wait_ok c hdr body rest hstream hlen hsize hid
+  have hl := opRead_local o v topic rest ⟨body, body.length⟩ (by simp [Enough])
+  simp only [ext] at hl
+  unfold connDo
+  simp only [hopen, Bool.false_eq_true, ↓reduceIte, hw, hl]
+  exact ⟨trivial, trivial⟩
+
 /-- after a transport / framing error the Conn is closed and every later operation fails, forever -/
 theorem closed_stays_failed (o : OpSpec) (v : Nat) (topic : Bytes) (c : Conn) (h : c.closed = true) :
     (connDo o v topic c).1.isFail = true ∧ (connDo o v topic c).2 = c := by
   unfold connDo; simp [h, Outcome.isFail]
+
+/-- a response nobody asked for (foreign correlation id at the head of the stream, one waiter): io.ErrNoProgress AND the
+Conn is closed (fix C11-D30) — so by `closed_stays_failed` every later operation fails, whatever ids it uses; before
+the fix a later request whose id happened to equal the stale frame's took it for its own response. -/
+theorem desync_closes (o : OpSpec) (v : Nat) (topic : Bytes) (c : Conn) (hopen : c.closed = false)
+    (hlen : 8 ≤ c.stream.length) (hid : beInt ((c.stream.drop 4).take 4) ≠ c.nextId) :
+    (connDo o v topic c).1.isFail = true ∧ (connDo o v topic c).2.closed = true ∧
+    ∀ o₂ v₂, (connDo o₂ v₂ topic (connDo o v topic c).2).1.isFail = true := by
+  have hw : waitResponse c = .error (.other "io.ErrNoProgress") := by
+    unfold waitResponse
+    have : ¬ c.stream.length < 8 := by omega
+    simp [this, hid]
+  have h1 : connDo o v topic c = (.fail (.other "io.ErrNoProgress"), { c with nextId := c.nextId + 1, closed := true }) := by
+    unfold connDo
+    simp [hopen, hw]
+  rw [h1]
+  refine ⟨rfl, rfl, fun o₂ v₂ => ?_⟩
+  exact (closed_stays_failed o₂ v₂ topic _ rfl).1
 
 theorem closed_stays_failed_fetch (fixed : Bool) (v : Nat) (off : Int) (b : Body) (c : Conn) (h : c.closed = true) :
     (connFetch fixed v off b c).1.isFail = true ∧ (connFetch fixed v off b c).2 = c := by
@@ -126,7 +165,7 @@ theorem closed_stays_failed_fetch (fixed : Bool) (v : Nat) (off : Int) (b : Body
 /-! ### the operation table satisfies the hypotheses (facts regenerated from /repo on every run) -/
 
 /-- operations covered by `aligned_or_closed` -/
-def coveredOps : List String := doOps.filter (· != "listOffsets")
+def coveredOps : List String := doOps      -- all of them since list-offsets drains on kafka errors (fix C11-D34)
 
 def goodFor (name : String) (vs : List Nat) : Bool :=
   match specOf name with
@@ -150,6 +189,214 @@ theorem covered_ops_good : coveredOps.all (fun n => goodFor n (versionsFor n)) =
 theorem produce_good : goodFor "produce" [2, 3, 7] = true := by decide
 
 theorem fetch_fixed : fetchFixed = true := by decide
+
+/-- `do` and `Batch.close` close the connection on exactly the non-kafka errors (regenerated; `connFetch` closes on every
+failed outcome, and failed = non-kafka there) -/
+theorem close_rules_hold : Gen.ConnLegacy.doClosesNonKafka = true ∧ Gen.ConnLegacy.batchClosesNonKafka = true := by decide
+
+/-! ### any number of operations in a row
+
+The one-step theorems compose: over a stream of honestly framed responses, a whole sequence of operations on one Conn
+gives, operation by operation, exactly what each would give alone on a fresh connection holding only its own frame —
+up to the first one that fails (a framing error or a transport error in its own frame); from there on every operation
+fails with "use of closed connection".  This is the property as the title states it: usable after broker-reported
+errors, never reused misaligned. -/
+
+/-- one exchange of a sequence: the operation, its version, the 8-byte header and the body the broker sends for it -/
+structure Exch where
+  o : OpSpec
+  v : Nat
+  hdr : Bytes
+  body : Bytes
+
+/-- honest framing for correlation id `id`, operation inside the main theorems (all of the table: `covered_ops_good`) -/
+def Exch.WF (e : Exch) (id : Int) : Prop :=
+  e.hdr.length = 8 ∧ beInt (e.hdr.take 4) = e.body.length + 4 ∧ beInt (e.hdr.drop 4) = id ∧
+  e.o.good e.v = true ∧ e.o.closeOnErr = true
+
+def seqWF : List Exch → Int → Prop
+  | [], _ => True
+  | e :: r, id => e.WF id ∧ seqWF r (id + 1)
+
+def streamOf : List Exch → Bytes
+  | [] => []
+  | e :: r => e.hdr ++ e.body ++ streamOf r
+
+def runOps (topic : Bytes) : List Exch → Conn → List Outcome × Conn
+  | [], c => ([], c)
+  | e :: r, c => ((connDo e.o e.v topic c).1 :: (runOps topic r (connDo e.o e.v topic c).2).1,
+                  (runOps topic r (connDo e.o e.v topic c).2).2)
+
+def closedOutcome : Outcome := .fail (.other "use of closed connection")
+
+/-- what each operation gives ALONE, on a fresh connection that holds its own frame and nothing else; after the first
+failure: closed -/
+def expectedOuts (topic : Bytes) : List Exch → List Outcome
+  | [] => []
+  | e :: r =>
+    let out := (opRead e.o e.v topic ⟨e.body, e.body.length⟩).1
+    if out.isFail then out :: r.map (fun _ => closedOutcome) else out :: expectedOuts topic r
+
+theorem runOps_closed (topic : Bytes) (es : List Exch) (c : Conn) (h : c.closed = true) :
+    runOps topic es c = (es.map (fun _ => closedOutcome), c) := by
+  induction es with
+  | nil => rfl
+  | cons e r ih =>
+    have h1 : connDo e.o e.v topic c = (closedOutcome, c) := by unfold connDo; simp [h, closedOutcome]
+    simp only [runOps, h1, ih, List.map_cons]
+
+theorem sequence_aligned (topic : Bytes) (es : List Exch) (c : Conn) (rest : Bytes)
+    (hopen : c.closed = false) (hwf : seqWF es c.nextId) (hs : c.stream = streamOf es ++ rest) :
+    (runOps topic es c).1 = expectedOuts topic es ∧
+    ((expectedOuts topic es).all (fun o => !o.isFail) = true →
+      (runOps topic es c).2 = { stream := rest, nextId := c.nextId + es.length, closed := false }) := by
+  induction es generalizing c with
+  | nil =>
+    simp only [streamOf, List.nil_append] at hs
+    refine ⟨rfl, fun _ => ?_⟩
+    cases c; simp_all [runOps]
+  | cons e r ih =>
+    obtain ⟨⟨hlen, hsize, hid, hgood, hclose⟩, hr⟩ := hwf
+    have hs' : c.stream = e.hdr ++ e.body ++ (streamOf r ++ rest) := by
+      rw [hs]; simp [streamOf, List.append_assoc]
+    have hloc := result_depends_only_on_frame e.o e.v topic c e.hdr e.body (streamOf r ++ rest) hopen hs' hlen hsize hid
+    have hac := aligned_or_closed e.o e.v topic c e.hdr e.body (streamOf r ++ rest) hgood hclose hopen hs' hlen hsize hid
+    simp only [runOps, expectedOuts]
+    rw [← hloc.1]
+    rcases hac with ⟨hnf, hc'⟩ | ⟨hf, hcl⟩
+    · -- aligned: the rest of the sequence runs from a Conn positioned at the next frame
+      have ih' := ih (connDo e.o e.v topic c).2 (by rw [hc']) (by rw [hc']; exact hr) (by rw [hc'])
+      simp only [hnf, Bool.false_eq_true, ↓reduceIte]
+      refine ⟨by rw [ih'.1], fun hall => ?_⟩
+      simp only [List.all_cons, Bool.and_eq_true] at hall
+      rw [ih'.2 hall.2, hc']
+      simp only [List.length_cons, Conn.mk.injEq, true_and, and_true]
+      omega
+    · -- failed: closed, every later operation fails
+      simp only [hf, ↓reduceIte]
+      rw [runOps_closed topic r _ hcl]
+      refine ⟨rfl, fun hall => ?_⟩
+      simp [hf] at hall
+
+/-! ### nothing else reads the Conn's buffer
+
+The theorems speak about the operations of the table, the framing code (`waitResponse`, `do`, `ApiVersions`) and the
+batch path.  `Gen.ConnLegacy.rbufUsers` is regenerated: every function of package kafka that touches a Conn's read
+buffer.  Each is one of the modelled sites, or a helper called only from modelled sites (an extracted helper does not
+raise an alarm; a new method that reads responses on its own does). -/
+
+/-- the modelled readers of the buffer: the read closures of the operation table, the framing functions, the batch path -/
+def modelledReaders : List String :=
+  ["Conn.findCoordinator", "Conn.heartbeat", "Conn.joinGroup", "Conn.leaveGroup", "Conn.listGroups", "Conn.offsetCommit",
+   "Conn.offsetFetch", "Conn.syncGroup", "Conn.createTopics", "Conn.deleteTopics", "Conn.saslHandshake",
+   "Conn.saslAuthenticate",                      -- framed (v1 handshake) and the raw token exchange (`rawToken`, C17)
+   "Conn.readOffset", "Conn.readResponse", "Conn.writeCompressedMessages",
+   "Conn.ApiVersions", "Conn.readApiVersions",
+   "Conn.waitResponse", "Conn.peekResponseSizeAndID", "Conn.skipResponseSizeAndID", "Conn.do", "Conn.abortRead",
+   "Conn.ReadBatchWith", "Batch.close"]
+
+def readerAccepted (u : String × List String) : Bool :=
+  modelledReaders.contains u.1 || (!u.2.isEmpty && u.2.all modelledReaders.contains)
+
+theorem buffer_readers_are_modelled : Gen.ConnLegacy.rbufUsers.all readerAccepted = true := by decide
+
+/-! ### a size prefix below 4 (negative ones included)
+
+conn.go waitResponse hands `size − 4` to the read closure; with a prefix below 4 (the correlation id alone takes 4
+bytes) that is ≤ 0 and every `readIntN` / `discardN` of read.go answers errShortRead without touching the stream: the
+operation fails and `do` closes the Conn.  This removes the assumption "size prefix ≥ 4" from the main theorems: a
+fully delivered frame either has an honest prefix (`aligned_or_closed`) or a prefix below 4 (`bad_size_closes`) — a
+prefix that is ≥ 4 but wrong is some other frame's honest prefix as far as the client can tell. -/
+
+/-- the program, run on a frame of announced size 0 (and nothing to read), stops with errShortRead having touched
+nothing — a closed computation, decided per operation and version below -/
+def shortAtZero (ps : List Step) (v : Nat) : Bool :=
+  match runSteps ps { ver := v } ⟨[], 0⟩ with
+  | (.error .shortRead, ⟨[], 0⟩) => true
+  | _ => false
+
+/-- … and then it does so whatever the stream holds (locality: the program cannot look beyond the announced size) -/
+theorem opRead_zero (o : OpSpec) (v : Nat) (topic inp : Bytes) (h : shortAtZero (o.parse v) v = true) :
+    opRead o v topic ⟨inp, 0⟩ = (.fail .shortRead, ⟨inp, 0⟩) := by
+  have hl := runSteps_local (o.parse v) inp { ver := v } ⟨[], 0⟩ (by simp [Enough])
+  simp only [ext, List.nil_append] at hl
+  unfold shortAtZero at h
+  unfold opRead
+  rw [hl]
+  cases hr : runSteps (o.parse v) { ver := v } ⟨[], 0⟩ with
+  | mk r s' =>
+    rw [hr] at h
+    obtain ⟨i, z⟩ := s'
+    cases r with
+    | ok _ => simp at h
+    | error e =>
+      cases e <;> cases i <;> cases z <;> simp at h
+      simp
+
+def startsFor (name : String) (vs : List Nat) : Bool :=
+  match specOf name with
+  | some o => vs.all (fun v => shortAtZero (o.parse v) v)
+  | none => false
+
+/-- every operation of the table (list-offsets included), every negotiated version, on the regenerated programs -/
+theorem ops_short_at_zero : doOps.all (fun n => startsFor n (versionsFor n)) = true := by decide
+
+/-- waitResponse on a header for the expected id whose size prefix is below 4: the read closure gets size 0 -/
+theorem wait_bad_size (c : Conn) (hdr rest : Bytes) (hstream : c.stream = hdr ++ rest) (hlen : hdr.length = 8)
+    (hsize : beInt (hdr.take 4) < 4) (hid : beInt (hdr.drop 4) = c.nextId) :
+    waitResponse c = .ok (0, rest) := by
+  have h1 : ¬ c.stream.length < 8 := by rw [hstream]; simp only [List.length_append]; omega
+  have h2 : c.stream.take 4 = hdr.take 4 := by
+    rw [hstream, List.take_append_of_le_length (by omega)]
+  have h3 : (c.stream.drop 4).take 4 = hdr.drop 4 := by
+    rw [hstream, List.drop_append_of_le_length (by omega)]
+    rw [List.take_append_of_le_length (by simp; omega)]
+    exact List.take_of_length_le (by simp; omega)
+  have h4 : c.stream.drop 8 = rest := by
+    rw [hstream, ← hlen, List.drop_left]
+  have hz : (beInt (hdr.take 4) - 4).toNat = 0 := by omega
+  unfold waitResponse
+  simp only [h1, ↓reduceIte, h2, h3, hid, h4, ne_eq, not_true_eq_false, hz]
+
+/-- a response for the expected correlation id whose size prefix is below 4: the operation fails (errShortRead) and the
+Conn is closed — for every such prefix, negative ones included, and whatever follows. -/
+theorem bad_size_closes (o : OpSpec) (v : Nat) (topic : Bytes) (c : Conn) (hdr rest : Bytes)
+    (hstart : shortAtZero (o.parse v) v = true) (hclose : o.closeOnErr = true) (hopen : c.closed = false)
+    (hstream : c.stream = hdr ++ rest) (hlen : hdr.length = 8)
+    (hsize : beInt (hdr.take 4) < 4) (hid : beInt (hdr.drop 4) = c.nextId) :
+    (connDo o v topic c).1 = .fail .shortRead ∧ (connDo o v topic c).2.closed = true := by
+  have hw := wait_bad_size c hdr rest hstream hlen hsize hid
+  unfold connDo
+  simp only [hopen, Bool.false_eq_true, ↓reduceIte, hw, opRead_zero o v topic rest hstart]
+  simp [Outcome.isFail, hclose]
+
+/-- fetch: the three header programs stop with errShortRead at size 0 (ReadBatchWith maps it to io.ErrUnexpectedEOF) -/
+theorem fetch_headers_short_at_zero : [2, 5, 10].all (fun v => shortAtZero (fetchHeader v) v) = true := by decide
+
+theorem bad_size_closes_fetch (fixed : Bool) (v : Nat) (off : Int) (b : Body) (c : Conn) (hdr rest : Bytes)
+    (hstart : shortAtZero (fetchHeader v) v = true) (hopen : c.closed = false)
+    (hstream : c.stream = hdr ++ rest) (hlen : hdr.length = 8)
+    (hsize : beInt (hdr.take 4) < 4) (hid : beInt (hdr.drop 4) = c.nextId) :
+    (connFetch fixed v off b c).1 = .fail .unexpectedEOF ∧ (connFetch fixed v off b c).2.closed = true := by
+  have hw := wait_bad_size c hdr rest hstream hlen hsize hid
+  have hl := runSteps_local (fetchHeader v) rest { ver := v } ⟨[], 0⟩ (by simp [Enough])
+  simp only [ext, List.nil_append] at hl
+  unfold shortAtZero at hstart
+  have hr : fetchRead fixed v off b ⟨rest, 0⟩ = (.fail .unexpectedEOF, ⟨rest, 0⟩) := by
+    unfold fetchRead
+    rw [hl]
+    cases hr : runSteps (fetchHeader v) { ver := v } ⟨[], 0⟩ with
+    | mk r s' =>
+      rw [hr] at hstart
+      obtain ⟨i, z⟩ := s'
+      cases r with
+      | ok _ => simp at hstart
+      | error e =>
+        cases e <;> cases i <;> cases z <;> simp at hstart
+        simp
+  unfold connFetch
+  simp only [hopen, Bool.false_eq_true, ↓reduceIte, hw, hr]
+  simp [Outcome.isFail]
 
 /-! ### the regenerated parser programs are the Kafka layouts (Spec/ConnFrames.lean, transcribed independently) -/
 
@@ -176,6 +423,38 @@ theorem gen_partitions_match_spec :
     renderSteps 2 produceResponsePartitionV2 = renderSteps 2 (producePartition 2) ∧
     renderSteps 3 produceResponsePartitionV2 = renderSteps 3 (producePartition 3) ∧
     renderSteps 7 produceResponsePartitionV7 = renderSteps 7 (producePartition 7) := by decide
+
+/-! ### the transcribed closures / fetch headers are what the translator regenerates from read.go and conn.go -/
+
+open KV.Gen.ConnLegacy in
+theorem closures_regenerated :
+    stepsEq fetchHeaderV2Gen fetchHeaderV2 = true ∧ stepsEq fetchHeaderV5Gen fetchHeaderV5 = true ∧
+    stepsEq fetchHeaderV10Gen fetchHeaderV10 = true ∧
+    stepsEq readOffsetClosureGen (readOffsetClosure partitionOffsetV1) = true ∧
+    produceClosureGen.all (fun vp => match specOf "produce" with
+                                     | some o => stepsEq vp.2 (o.parse vp.1)
+                                     | none => false) = true ∧
+    produceClosureGen.map (·.1) = versionsOf "writeCompressedMessages" ∧
+    stepsEq apiVersionsParseGen apiVersionsParse = true ∧ apiVersionsErrAfter = true := by decide
+
+/-! `stepsEq` is sound: it only accepts equal programs, so the theorems about the transcriptions are theorems about
+the regenerated programs -/
+mutual
+theorem eqv_sound : ∀ (a b : Step), a.eqv b = true → a = b := by
+  intro a b h
+  cases a <;> cases b <;> simp only [Step.eqv, Bool.and_eq_true, beq_iff_eq, Bool.false_eq_true] at h
+  all_goals first
+    | rfl
+    | (subst h; rfl)
+    | (rename_i x y; rw [stepsEq_sound x y h])
+    | (rename_i v x w y; obtain ⟨h1, h2⟩ := h; subst h1; rw [stepsEq_sound x y h2])
+theorem stepsEq_sound : ∀ (a b : List Step), stepsEq a b = true → a = b := by
+  intro a b h
+  cases a <;> cases b <;> simp only [stepsEq, Bool.and_eq_true, Bool.false_eq_true] at h
+  · rfl
+  · rename_i x xs y ys
+    rw [eqv_sound x y h.1, stepsEq_sound xs ys h.2]
+end
 
 /-! ### D2: what the fix repairs (regression witness; the unfixed shape violates the theorem) -/
 
@@ -206,17 +485,37 @@ theorem d2_fixed_example :
     (connDo (simpleOp "heartbeat" Gen.ConnLegacy.heartbeatResponseV0) 0 [116] ⟨d2Next, 2, false⟩).1 = .ok := by
   decide
 
+/-- non-vacuity on the regenerated table: heartbeat (ok), produce v2 answered with NotLeaderForPartition (kafka 6, the
+D2 frame), heartbeat again, then a heartbeat whose frame has a byte too many (fails, closes), then one more: the run
+on one Conn is `[ok, kafka 6, ok, fail, closed]`, i.e. `expectedOuts`; the hypotheses of `sequence_aligned` hold for
+the first three (honest frames, operations of the table). -/
+def exampleSeq (hb pr : OpSpec) : List Exch :=
+  [⟨hb, 0, [0,0,0,6, 0,0,0,1], [0,0]⟩, ⟨pr, 2, [0,0,0,41, 0,0,0,2], d2Body⟩, ⟨hb, 0, [0,0,0,6, 0,0,0,3], [0,0]⟩,
+   ⟨hb, 0, [0,0,0,7, 0,0,0,4], [0,0,9]⟩, ⟨hb, 0, [0,0,0,6, 0,0,0,5], [0,0]⟩]
+
+def exampleHolds (hb pr : OpSpec) : Bool :=
+  let es := exampleSeq hb pr
+  (runOps [116] es ⟨streamOf es, 1, false⟩).1 == expectedOuts [116] es &&
+  (expectedOuts [116] es).map Outcome.isFail == [false, false, false, true, true] &&
+  expectedOuts [116] (es.take 3) == [.ok, .kafka 6, .ok] &&
+  (runOps [116] (es.take 3) ⟨streamOf es, 1, false⟩).2.nextId == 4
+
+theorem sequence_example :
+    ((specOf "heartbeat").bind fun hb => (specOf "produce").map fun pr => exampleHolds hb pr) = some true := by decide
+
+
 example : d2Body.length = 37 ∧ beInt ((d2Frame 1).take 4) = d2Body.length + 4 ∧ beInt (((d2Frame 1).take 8).drop 4) = 1 := by decide
 
 /-! ### fetch -/
 
 /-- C11 for fetch (ReadBatchWith, reading the batch to its end, Batch.Close), for EVERY message-set reader that
-conserves bytes.  `hwf`: a response whose high watermark equals the fetch offset carries an empty message set. -/
+conserves bytes — no hypothesis on the frame (since the fix C11-D32 the message set of a response at the high watermark is
+skipped as well). -/
 theorem fetch_aligned_or_closed (v : Nat) (offset : Int) (b : Body) (c : Conn) (hdr body rest : Bytes)
     (hb : b.Conserves) (hopen : c.closed = false)
     (hstream : c.stream = hdr ++ body ++ rest) (hlen : hdr.length = 8)
     (hsize : beInt (hdr.take 4) = body.length + 4) (hid : beInt (hdr.drop 4) = c.nextId)
-    (hwf : ∀ cx s1, runSteps (fetchHeader v) { ver := v } ⟨body ++ rest, body.length⟩ = (.ok cx, s1) → cx.hwm = offset → s1.sz = 0) :
+    :
     ((connFetch true v offset b c).1.isFail = false ∧
         (connFetch true v offset b c).2 = { stream := rest, nextId := c.nextId + 1, closed := false }) ∨
     ((connFetch true v offset b c).1.isFail = true ∧ (connFetch true v offset b c).2.closed = true) := by
@@ -227,18 +526,19 @@ theorem fetch_aligned_or_closed (v : Nat) (offset : Int) (b : Body) (c : Conn) (
   | true => right; simp
   | false =>
     left
-    have hz := fetchRead_full v offset b ⟨body ++ rest, body.length⟩ hb (by simp) hwf hf
+    have hz := fetchRead_full v offset b ⟨body ++ rest, body.length⟩ hb (by simp) hf
     have ha := (fetchRead_adv true v offset b ⟨body ++ rest, body.length⟩ hb).consumed_all hz
     simp only [List.drop_left] at ha
     simp [ha.2]
 
-/-- why `hwf` is there: header ok, high watermark = fetch offset, but a non-empty set: the Go code takes the
-`messageSetReader{empty: true}` path, reports RequestTimedOut and leaves the set unread on a Conn it keeps.
-(No broker sends this; recorded as an observation in docs/notes/C11.md, replayed through the driver.) -/
+/-- C11-D32 (fixed): header ok, high watermark = fetch offset, but a non-empty set — the Go code takes the
+`messageSetReader{empty: true}` path and reports RequestTimedOut; before the fix it left the set unread on a Conn it
+keeps (first line, the unfixed shape), now it skips it (second line). -/
 def atWatermarkBody : Bytes :=
   [0,0,0,0, 0,0,0,1, 0,1,116, 0,0,0,1, 0,0,0,0, 0,0, 0,0,0,0,0,0,0,5, 0,0,0,3, 1,2,3]
 theorem fetch_at_watermark_counterexample :
-    fetchRead true 2 5 idealBody ⟨atWatermarkBody, atWatermarkBody.length⟩ = (.kafka 7, ⟨[1,2,3], 3⟩) := by decide
+    fetchRead false 2 5 idealBody ⟨atWatermarkBody, atWatermarkBody.length⟩ = (.kafka 7, ⟨[1,2,3], 3⟩) ∧
+    fetchRead true 2 5 idealBody ⟨atWatermarkBody, atWatermarkBody.length⟩ = (.kafka 7, ⟨[], 0⟩) := by decide
 
 /-- D2 for fetch v10 (top-level error) and v5 (partition error): unfixed shape leaves bytes, fixed shape does not -/
 def fetchErrV10 : Bytes := [0,0,0,0, 0,6, 0,0,0,9, 0,0,0,0]
@@ -255,16 +555,309 @@ theorem idealBody_conserves : idealBody.Conserves := by
     · refine ⟨s.inp.take s.sz, (List.take_append_drop _ _).symm, ?_⟩
       simp only [List.length_take]; omega
 
-/-! ### listOffsets: the one operation that relies on the shape of a well-formed frame -/
+/-! ### message_reader.go: the reader stack keeps the frame accounting (the `Body` hypothesis, discharged)
+
+`fetch_aligned_or_closed` assumes the message-set reader conserves bytes.  Model/ReaderStack.lean models what in
+message_reader.go decides that: which reader of the stack a read touches, how a compressed batch / wrapper is charged
+to the root's `remain`, and what `discard()` discards.  The three statements involved are regenerated facts. -/
+
+section ReaderStackSec
+open KV.ReaderStack
+
+theorem rootTake_adv (r : RS) (k : Nat) (h1 : k ≤ r.sz) (h2 : k ≤ r.inp.length) : Adv r (rootTake r k k) :=
+  ⟨r.inp.take k, (List.take_append_drop k r.inp).symm, by simp only [rootTake, List.length_take]; omega⟩
+
+/-- with the three accounting facts, every operation of the reader stack keeps the root's `remain` in step with the bytes
+taken from the Conn -/
+theorem stack_step_adv (f : Facts) (hf : f.all = true) (m : MSR) (o : Op) : Adv m.root (ReaderStack.step f m o).root := by
+  have h : f.discardRewinds = true ∧ f.v2AccountsConsumed = true ∧ f.v1AccountsConsumed = true := by
+    simpa [Facts.all, and_assoc] using hf
+  cases o with
+  | read n =>
+    simp only [ReaderStack.step]
+    cases m.children with
+    | nil => exact conserves_discardN n m.root
+    | cons c cs => exact Adv.refl _
+  | pushV2 b u d =>
+    simp only [ReaderStack.step]
+    cases m.children with
+    | nil => simp only [h.2.1, ↓reduceIte]; exact rootTake_adv _ _ (by omega) (by omega)
+    | cons c cs => exact Adv.refl _
+  | pushV1 n u d =>
+    simp only [ReaderStack.step]
+    cases m.children with
+    | nil => simp only [h.2.2, ↓reduceIte]; exact rootTake_adv _ _ (by omega) (by omega)
+    | cons c cs => exact Adv.refl _
+  | pop => exact Adv.refl _
+  | discard =>
+    simp only [ReaderStack.step, h.1, ↓reduceIte]
+    exact conserves_discardN _ m.root
+
+theorem stack_run_adv (f : Facts) (hf : f.all = true) : ∀ (os : List Op) (m : MSR), Adv m.root (ReaderStack.run f m os).root
+  | [], m => Adv.refl _
+  | o :: os, m => Adv.trans (stack_step_adv f hf m o) (stack_run_adv f hf os _)
+
+/-- `discard()` (Batch.close, end of batch) leaves nothing of the fetch response unread, whatever is on the stack -/
+theorem stack_discard_empties (f : Facts) (hf : f.all = true) (m : MSR) (he : m.root.sz ≤ m.root.inp.length) :
+    (ReaderStack.step f m .discard).root = ⟨m.root.inp.drop m.root.sz, 0⟩ ∧ (ReaderStack.step f m .discard).children = [] := by
+  have h : f.discardRewinds = true := by
+    have : f.discardRewinds = true ∧ f.v2AccountsConsumed = true ∧ f.v1AccountsConsumed = true := by
+      simpa [Facts.all, and_assoc] using hf
+    exact this.1
+  simp only [ReaderStack.step, h, ↓reduceIte, discardN_all_enough m.root he, and_self]
+
+/-- the code as it is now has the three accounting statements (regenerated) -/
+theorem reader_stack_facts_hold : Gen.ConnLegacy.readerStackFacts.all = true := by decide
+
+/-- the modelled message-set reader is a `Body` that conserves bytes: the hypothesis of `fetch_aligned_or_closed` /
+`fetch_cut_is_error` is discharged for it (any operation sequences, any error it ends with) -/
+def stackBody (f : Facts) (ops1 ops2 : List Op) (e1 : Option Err) (e2 : Err) : Body where
+  first := fun s => (match e1 with | some e => .error e | none => .ok (), (ReaderStack.run f ⟨s, []⟩ ops1).root)
+  rest := fun s => (e2, (ReaderStack.run f ⟨s, []⟩ ops2).root)
+
+theorem stackBody_conserves (f : Facts) (hf : f.all = true) (ops1 ops2 : List Op) (e1 : Option Err) (e2 : Err) :
+    (stackBody f ops1 ops2 e1 e2).Conserves :=
+  ⟨fun s => stack_run_adv f hf ops1 ⟨s, []⟩, fun s => stack_run_adv f hf ops2 ⟨s, []⟩⟩
+
+/-- the reader stack looks at the bytes of its own fetch response only: with what follows the frame appended to the
+stream, every operation does the same and leaves the appended bytes where they were -/
+theorem stack_step_local (f : Facts) (hf : f.all = true) (m : MSR) (o : Op) (rest : Bytes) (he : Enough m.root) :
+    ReaderStack.step f ⟨ext rest m.root, m.children⟩ o =
+      ⟨ext rest (ReaderStack.step f m o).root, (ReaderStack.step f m o).children⟩ := by
+  have h : f.discardRewinds = true ∧ f.v2AccountsConsumed = true ∧ f.v1AccountsConsumed = true := by
+    simpa [Facts.all, and_assoc] using hf
+  obtain ⟨root, ch⟩ := m
+  simp only at he ⊢
+  have hlen : root.sz ≤ root.inp.length := he
+  cases o with
+  | read n =>
+    cases ch with
+    | nil => simp only [ReaderStack.step]; rw [rlocal_discardN n rest root he]
+    | cons c cs => rfl
+  | pushV2 b u d =>
+    cases ch with
+    | nil =>
+      simp only [ReaderStack.step, h.2.1, ↓reduceIte, ext, List.length_append, rootTake]
+      have e1 : min root.sz (root.inp.length + rest.length) = root.sz := by omega
+      have e2 : min root.sz root.inp.length = root.sz := by omega
+      rw [e1, e2, drop_app_le _ _ _ (by omega)]
+    | cons c cs => rfl
+  | pushV1 n u d =>
+    cases ch with
+    | nil =>
+      simp only [ReaderStack.step, h.2.2, ↓reduceIte, ext, List.length_append, rootTake]
+      have e1 : min root.sz (root.inp.length + rest.length) = root.sz := by omega
+      have e2 : min root.sz root.inp.length = root.sz := by omega
+      rw [e1, e2, drop_app_le _ _ _ (by omega)]
+    | cons c cs => rfl
+  | pop => rfl
+  | discard =>
+    simp only [ReaderStack.step, h.1, ↓reduceIte]
+    have := rlocal_discardN (↑root.sz) rest root he
+    have e : ((ext rest root).sz : Int) = (root.sz : Int) := rfl
+    rw [e, this]
+
+theorem stack_run_local (f : Facts) (hf : f.all = true) (rest : Bytes) :
+    ∀ (os : List Op) (m : MSR), Enough m.root →
+      ReaderStack.run f ⟨ext rest m.root, m.children⟩ os =
+        ⟨ext rest (ReaderStack.run f m os).root, (ReaderStack.run f m os).children⟩
+  | [], m, _ => rfl
+  | o :: os, m, he => by
+    simp only [ReaderStack.run]
+    rw [stack_step_local f hf m o rest he]
+    exact stack_run_local f hf rest os (ReaderStack.step f m o) (Adv_enough (stack_step_adv f hf m o) he)
+
+/-- … so the modelled message-set reader also meets the locality hypothesis of `fetch_depends_only_on_frame` /
+`fetch_exchange_ok` -/
+theorem stackBody_local (f : Facts) (hf : f.all = true) (ops1 ops2 : List Op) (e1 : Option Err) (e2 : Err) :
+    (stackBody f ops1 ops2 e1 e2).Local := by
+  refine ⟨fun rest s he => ?_, fun rest s he => ?_⟩
+  · simp only [stackBody]
+    have := stack_run_local f hf rest ops1 ⟨s, []⟩ he
+    simp only at this
+    rw [this]
+  · simp only [stackBody]
+    have := stack_run_local f hf rest ops2 ⟨s, []⟩ he
+    simp only at this
+    rw [this]
+
+/-- the two seeded shapes, as runs of the model: (1) `discard()` that only unwinds exhausted readers — closing part-way
+through a compressed batch leaves the rest of the response on the Conn; (2) a compressed v2 batch always counted as
+fully consumed — `remain` reaches 0 although the stream ended inside the payload. -/
+theorem reader_stack_counterexamples :
+    (let f : Facts := ⟨false, true, true⟩
+     let m := ReaderStack.run f ⟨⟨List.replicate 100 0, 100⟩, []⟩ [.read 61, .pushV2 20 20 50, .read 10, .discard]
+     m.root.sz = 19 ∧ m.root.inp.length = 19) ∧
+    (let f : Facts := ⟨true, false, true⟩
+     let m := ReaderStack.run f ⟨⟨List.replicate 70 0, 100⟩, []⟩ [.read 61, .pushV2 39 39 0, .pop, .discard]
+     m.root.sz = 0 ∧ m.root.inp.length = 0) ∧
+    (let f : Facts := ⟨true, true, true⟩
+     let m := ReaderStack.run f ⟨⟨List.replicate 70 0, 100⟩, []⟩ [.read 61, .pushV2 39 39 0, .pop, .discard]
+     m.root.sz = 30) := by decide
+
+end ReaderStackSec
+
+/-! ### fetch in the sequences: locality of ReadBatchWith + Batch, mixed runs of operations and fetches -/
+
+/-- the fetch analogue of `result_depends_only_on_frame`: for every message-set reader that conserves bytes and looks at
+its own frame only, what ReadBatchWith + reading the batch + Close return is a function of the frame's bytes, and what
+follows the frame is still there, untouched -/
+theorem fetch_depends_only_on_frame (fixed : Bool) (v : Nat) (offset : Int) (b : Body) (hb : b.Conserves) (hl : b.Local)
+    (c : Conn) (hdr body rest : Bytes) (hopen : c.closed = false)
+    (hstream : c.stream = hdr ++ body ++ rest) (hlen : hdr.length = 8)
+    (hsize : beInt (hdr.take 4) = body.length + 4) (hid : beInt (hdr.drop 4) = c.nextId) :
+    (connFetch fixed v offset b c).1 = (fetchRead fixed v offset b ⟨body, body.length⟩).1 ∧
+    (connFetch fixed v offset b c).2.stream = (fetchRead fixed v offset b ⟨body, body.length⟩).2.inp ++ rest := by
+  have hw := wait_ok c hdr body rest hstream hlen hsize hid
+  have hloc := fetchRead_local fixed v offset b hb hl rest ⟨body, body.length⟩ (by simp [Enough])
+  simp only [ext] at hloc
+  unfold connFetch
+  simp only [hopen, Bool.false_eq_true, ↓reduceIte, hw, hloc]
+  exact ⟨trivial, trivial⟩
+
+/-- the ideal reader (reads the set to its end) is local -/
+theorem idealBody_local : idealBody.Local := by
+  refine ⟨fun rest s _ => ?_, fun rest s he => ?_⟩
+  · simp only [idealBody, ext]
+    by_cases hz : s.sz = 0 <;> simp [hz]
+  · simp only [idealBody, ext, Enough] at he ⊢
+    have h1 : ¬ s.inp.length < s.sz := by omega
+    have h2 : ¬ (s.inp ++ rest).length < s.sz := by simp only [List.length_append]; omega
+    simp only [h1, h2, ↓reduceIte]
+    rw [List.drop_append_of_le_length he]
+
+/-- one exchange of a mixed run, abstractly: how it acts on a Conn, what it gives alone, the frame the broker sends -/
+structure Xch where
+  run : Conn → Outcome × Conn
+  alone : Outcome
+  frame : Bytes
+
+/-- the two one-step facts a run needs: on a closed Conn nothing happens; on an open Conn positioned at this frame the
+result is the `alone` one and the Conn ends either exactly after the frame or closed -/
+def Xch.OK (x : Xch) (id : Int) : Prop :=
+  (∀ c, c.closed = true → x.run c = (closedOutcome, c)) ∧
+  (∀ c rest, c.closed = false → c.nextId = id → c.stream = x.frame ++ rest →
+     (x.run c).1 = x.alone ∧
+     ((x.alone.isFail = false ∧ (x.run c).2 = { stream := rest, nextId := id + 1, closed := false }) ∨
+      (x.alone.isFail = true ∧ (x.run c).2.closed = true)))
+
+def xseqOK : List Xch → Int → Prop
+  | [], _ => True
+  | x :: r, id => x.OK id ∧ xseqOK r (id + 1)
+
+def xstream : List Xch → Bytes
+  | [] => []
+  | x :: r => x.frame ++ xstream r
+
+def xrun : List Xch → Conn → List Outcome × Conn
+  | [], c => ([], c)
+  | x :: r, c => ((x.run c).1 :: (xrun r (x.run c).2).1, (xrun r (x.run c).2).2)
+
+def xexpected : List Xch → List Outcome
+  | [] => []
+  | x :: r => if x.alone.isFail then x.alone :: r.map (fun _ => closedOutcome) else x.alone :: xexpected r
+
+theorem xrun_closed (xs : List Xch) (id : Int) (h : xseqOK xs id) (c : Conn) (hc : c.closed = true) :
+    xrun xs c = (xs.map (fun _ => closedOutcome), c) := by
+  induction xs generalizing id with
+  | nil => rfl
+  | cons x r ih =>
+    have h1 := h.1.1 c hc
+    simp only [xrun, h1, ih (id + 1) h.2, List.map_cons]
+
+/-- **mixed runs**: operations of the table and fetches in any order on one Conn — each gives what it gives alone on a
+fresh connection holding only its own frame, up to the first failure; then all fail -/
+theorem mixed_sequence_aligned (xs : List Xch) (c : Conn) (rest : Bytes)
+    (hopen : c.closed = false) (hok : xseqOK xs c.nextId) (hs : c.stream = xstream xs ++ rest) :
+    (xrun xs c).1 = xexpected xs ∧
+    ((xexpected xs).all (fun o => !o.isFail) = true →
+      (xrun xs c).2 = { stream := rest, nextId := c.nextId + xs.length, closed := false }) := by
+  induction xs generalizing c with
+  | nil =>
+    simp only [xstream, List.nil_append] at hs
+    refine ⟨rfl, fun _ => ?_⟩
+    cases c; simp_all [xrun]
+  | cons x r ih =>
+    obtain ⟨hx, hr⟩ := hok
+    have hs' : c.stream = x.frame ++ (xstream r ++ rest) := by rw [hs]; simp [xstream, List.append_assoc]
+    obtain ⟨hres, hac⟩ := hx.2 c (xstream r ++ rest) hopen rfl hs'
+    simp only [xrun, xexpected]
+    rw [hres]
+    rcases hac with ⟨hnf, hc'⟩ | ⟨hf, hcl⟩
+    · have ih' := ih (x.run c).2 (by rw [hc']) (by rw [hc']; exact hr) (by rw [hc'])
+      simp only [hnf, Bool.false_eq_true, ↓reduceIte]
+      refine ⟨by rw [ih'.1], fun hall => ?_⟩
+      simp only [List.all_cons, Bool.and_eq_true] at hall
+      rw [ih'.2 hall.2, hc']
+      simp only [List.length_cons, Conn.mk.injEq, true_and, and_true]
+      omega
+    · simp only [hf, ↓reduceIte]
+      rw [xrun_closed r (c.nextId + 1) hr _ hcl]
+      refine ⟨rfl, fun hall => ?_⟩
+      simp [hf] at hall
+
+/-- an operation of the table is such an exchange -/
+def Xch.ofOp (topic : Bytes) (e : Exch) : Xch :=
+  { run := connDo e.o e.v topic, alone := (opRead e.o e.v topic ⟨e.body, e.body.length⟩).1, frame := e.hdr ++ e.body }
+
+theorem op_exchange_ok (topic : Bytes) (e : Exch) (id : Int) (h : e.WF id) : (Xch.ofOp topic e).OK id := by
+  obtain ⟨hlen, hsize, hid, hgood, hclose⟩ := h
+  refine ⟨fun c hc => ?_, fun c rest hopen hn hs => ?_⟩
+  · simp only [Xch.ofOp]; unfold connDo; simp [hc, closedOutcome]
+  · simp only [Xch.ofOp] at hs ⊢
+    have hid' : beInt (e.hdr.drop 4) = c.nextId := by rw [hn]; exact hid
+    have hloc := result_depends_only_on_frame e.o e.v topic c e.hdr e.body rest hopen hs hlen hsize hid'
+    have hac := aligned_or_closed e.o e.v topic c e.hdr e.body rest hgood hclose hopen hs hlen hsize hid'
+    refine ⟨hloc.1, ?_⟩
+    rw [← hloc.1, ← hn]
+    exact hac
+
+/-- a fetch (ReadBatchWith, the batch read to its end or abandoned, Close) with a conserving, local message-set reader
+is such an exchange -/
+def Xch.ofFetch (v : Nat) (offset : Int) (b : Body) (hdr body : Bytes) : Xch :=
+  { run := connFetch true v offset b, alone := (fetchRead true v offset b ⟨body, body.length⟩).1, frame := hdr ++ body }
+
+theorem fetch_exchange_ok (v : Nat) (offset : Int) (b : Body) (hb : b.Conserves) (hl : b.Local) (hdr body : Bytes) (id : Int)
+    (hlen : hdr.length = 8) (hsize : beInt (hdr.take 4) = body.length + 4) (hid : beInt (hdr.drop 4) = id) :
+    (Xch.ofFetch v offset b hdr body).OK id := by
+  refine ⟨fun c hc => ?_, fun c rest hopen hn hs => ?_⟩
+  · simp only [Xch.ofFetch]; unfold connFetch; simp [hc, closedOutcome]
+  · simp only [Xch.ofFetch] at hs ⊢
+    have hid' : beInt (hdr.drop 4) = c.nextId := by rw [hn]; exact hid
+    have hloc := fetch_depends_only_on_frame true v offset b hb hl c hdr body rest hopen hs hlen hsize hid'
+    have hac := fetch_aligned_or_closed v offset b c hdr body rest hb hopen hs hlen hsize hid'
+    refine ⟨hloc.1, ?_⟩
+    rw [← hloc.1, ← hn]
+    exact hac
+
+/-- non-vacuity: heartbeat, a fetch v10 answered with NotLeaderForPartition (`fetchErrV10`), heartbeat — one Conn -/
+def mixedExample : List Xch :=
+  let hb := simpleOp "heartbeat" Gen.ConnLegacy.heartbeatResponseV0
+  [Xch.ofOp [116] ⟨hb, 0, [0,0,0,6, 0,0,0,1], [0,0]⟩,
+   Xch.ofFetch 10 0 idealBody [0,0,0,(4 + fetchErrV10.length).toUInt8, 0,0,0,2] fetchErrV10,
+   Xch.ofOp [116] ⟨hb, 0, [0,0,0,6, 0,0,0,3], [0,0]⟩]
+
+theorem mixed_example :
+    ((xrun mixedExample ⟨xstream mixedExample ++ [7], 1, false⟩).1 == [.ok, .kafka 6, .ok] &&
+     xexpected mixedExample == [.ok, .kafka 6, .ok] &&
+     (xrun mixedExample ⟨xstream mixedExample ++ [7], 1, false⟩).2 == ⟨[7], 4, false⟩) = true := by decide
+
+/-! ### listOffsets: inside the main theorems since it drains on kafka errors (fix C11-D34); the shape theorem stays -/
+
+/-- list-offsets as it was before the fix C11-D34: the kafka error leaves the partition loop without a drain -/
+def listOffsetsUnfixed : OpSpec :=
+  { parse := fun _ => readOffsetClosure Gen.ConnLegacy.partitionOffsetV1, drain := false, expectZero := true, post := .none, closeOnErr := true }
 
 /-- two partitions in one list-offsets response (never sent for a one-partition request), error in the first:
-the second entry stays unread on a Conn that is kept — the reason `listOffsets` is outside `aligned_or_closed`. -/
+without the drain the second entry stayed unread on a Conn that is kept; the current (regenerated) operation skips it. -/
 def listOffsets2 : Bytes :=
   [0,0,0,1, 0,1,116, 0,0,0,2, 0,0,0,0, 0,6, 0,0,0,0,0,0,0,0, 0,0,0,0,0,0,0,0,
                                0,0,0,1, 0,0, 0,0,0,0,0,0,0,0, 0,0,0,0,0,0,0,9]
 theorem listOffsets_two_partitions_counterexample :
-    ((specOf "listOffsets").map fun o => (opRead o 1 [116] ⟨listOffsets2, listOffsets2.length⟩).1) = some (.kafka 6) ∧
-    ((specOf "listOffsets").map fun o => (opRead o 1 [116] ⟨listOffsets2, listOffsets2.length⟩).2.sz) = some 22 := by
+    (opRead listOffsetsUnfixed 1 [116] ⟨listOffsets2, listOffsets2.length⟩).1 = .kafka 6 ∧
+    (opRead listOffsetsUnfixed 1 [116] ⟨listOffsets2, listOffsets2.length⟩).2.sz = 22 ∧
+    ((specOf "listOffsets").map fun o => (opRead o 1 [116] ⟨listOffsets2 ++ [9], listOffsets2.length⟩)) =
+      some (.kafka 6, ⟨[9], 0⟩) := by
   decide
 
 theorem readInt_app (a r : Bytes) (n sz : Nat) (h : a.length = n) (hn : n ≤ sz) :
@@ -288,7 +881,7 @@ theorem discardN_app (a r : Bytes) (n : Int) (sz : Nat) (h : (a.length : Int) = 
 timestamp, offset; any bytes after the frame.  Result: ok / that kafka error, frame exactly consumed. -/
 theorem listOffsets_aligned_wf (o : OpSpec) (topic c1 lenb name c2 part err ts off rest : Bytes)
     (hparse : o.parse 1 = readOffsetClosure [.int 4, .err, .int 8, .int 8])
-    (hdrain : o.drain = false) (hzero : o.expectZero = true) (hpost : o.post.eval topic = fun _ => none)
+    (hzero : o.expectZero = true) (hpost : o.post.eval topic = fun _ => none)
     (h1 : c1.length = 4) (h1v : beInt c1 = 1) (hl : lenb.length = 2) (hn : beInt lenb = name.length)
     (h2 : c2.length = 4) (h2v : beInt c2 = 1)
     (hp : part.length = 4) (he : err.length = 2) (ht : ts.length = 8) (ho : off.length = 8) :
@@ -319,13 +912,13 @@ theorem listOffsets_aligned_wf (o : OpSpec) (topic c1 lenb name c2 part err ts o
   simp only []
   by_cases hz : beInt err = 0
   · simp [hz, hzero, hpost]
-  · simp [hz, hdrain]
+  · simp [hz]
 
 /-- the regenerated list-offsets operation has exactly the shape `listOffsets_aligned_wf` is about -/
 theorem listOffsets_gen_shape : ∃ o, specOf "listOffsets" = some o ∧
-    o.parse 1 = readOffsetClosure [.int 4, .err, .int 8, .int 8] ∧ o.drain = false ∧ o.expectZero = true ∧
+    o.parse 1 = readOffsetClosure [.int 4, .err, .int 8, .int 8] ∧ o.expectZero = true ∧
     (∀ t, o.post.eval t = fun _ => none) :=
-  ⟨_, rfl, rfl, by decide, by decide, fun _ => rfl⟩
+  ⟨_, rfl, rfl, by decide, fun _ => rfl⟩
 
 /-! ### the read lock is released on every exit path (regenerated facts), a leaked lock blocks forever -/
 
@@ -338,32 +931,67 @@ theorem lock_released_on_every_path (lf : LockFacts) (h : lf.all = true) (inflig
     (connDoL lf inflight o v topic (c, false)).2.2 = false ∧
     (inflight = false → (connDoL lf inflight o v topic (c, false)).1 = (connDo o v topic c).1 ∧
                         (connDoL lf inflight o v topic (c, false)).2.1 = (connDo o v topic c).2) := by
-  have hh : lf.peekErr = true ∧ lf.noProgress = true ∧ lf.yield = true ∧ lf.take = true ∧ lf.doBody = true ∧
+  have hh : lf.peekErr = true ∧ lf.noProgress = true ∧ lf.desyncCloses = true ∧ lf.yield = true ∧ lf.take = true ∧ lf.leave = true ∧ lf.doBody = true ∧
       lf.apiVersions = true ∧ lf.batchHandover = true ∧ lf.batchClose = true := by
     simpa [LockFacts.all, and_assoc] using h
-  obtain ⟨h1, h2, _, h4, h5, h6, _, _⟩ := hh
+  obtain ⟨h1, h2, hd, _, h4, hl, h5, h6, _, _⟩ := hh
   have hrel : ∀ p, released lf o.closeOnErr p = true := by
-    intro p; cases p <;> simp [released, h1, h2, h4, h5, h6]
+    intro p; cases p <;> simp [released, h1, h2, h4, h5, h6, hl]
   refine ⟨by simp [connDoL, hrel], ?_⟩
   intro hi
   subst hi
-  simp [connDoL]
+  simp [connDoL, hd]
 
 theorem lock_released_fetch (lf : LockFacts) (h : lf.all = true) (fixed : Bool) (v : Nat) (off : Int) (b : Body) (c : Conn) :
     (connFetchL lf fixed v off b (c, false)).2.2 = false := by
-  have hh : lf.peekErr = true ∧ lf.noProgress = true ∧ lf.yield = true ∧ lf.take = true ∧ lf.doBody = true ∧
+  have hh : lf.peekErr = true ∧ lf.noProgress = true ∧ lf.desyncCloses = true ∧ lf.yield = true ∧ lf.take = true ∧ lf.leave = true ∧ lf.doBody = true ∧
       lf.apiVersions = true ∧ lf.batchHandover = true ∧ lf.batchClose = true := by
     simpa [LockFacts.all, and_assoc] using h
-  obtain ⟨h1, h2, _, h4, h5, _, h7, h8⟩ := hh
+  obtain ⟨h1, h2, _, _, h4, hl, h5, _, h7, h8⟩ := hh
   unfold connFetchL
   simp only [Bool.false_and, Bool.false_eq_true, ↓reduceIte, Bool.false_or, Bool.not_eq_eq_eq_not, Bool.not_false]
-  cases exitPath false c <;> simp [released, h1, h2, h4, h5, h7, h8]
+  cases exitPath false c <;> simp [released, h1, h2, h4, h5, h7, h8, hl]
 
 /-- once the lock is leaked, every operation whose request goes out blocks — result and state never change again -/
 theorem leaked_lock_blocks (lf : LockFacts) (inflight : Bool) (o : OpSpec) (v : Nat) (topic : Bytes) (c : Conn)
     (hsent : exitPath inflight c ≠ .notSent) :
     connDoL lf inflight o v topic (c, true) = (blocked, (c, true)) := by
-  simp [connDoL, hsent]
+  have hopen : ∀ c' : Conn, c'.closed = false → exitPath inflight c' ≠ .notSent := by
+    intro c' hc
+    unfold exitPath
+    simp only [hc, Bool.false_eq_true, ↓reduceIte]
+    split <;> simp
+  unfold connDoL
+  by_cases hs : (inflight && c.closed && !lf.dropsBuffer) = true
+  · simp only [hs, ↓reduceIte, Bool.true_and]
+    simp [hopen { c with closed := false } rfl]
+  · simp only [hs, Bool.false_eq_true, ↓reduceIte, Bool.true_and]
+    simp [hsent]
+
+/-- a caller that was already in flight when the Conn was closed fails — provided the closing path dropped what was
+left in the read buffer (regenerated: `drops_buffer_holds`); `inflight_served_leftover_counterexample` is the run
+without it: the second caller is handed the frame forged inside the first response. -/
+theorem inflight_caller_fails_after_close (lf : LockFacts) (hd : lf.dropsBuffer = true) (o : OpSpec) (v : Nat)
+    (topic : Bytes) (c : Conn) (hc : c.closed = true) :
+    (connDoL lf true o v topic (c, false)).1 = .fail .eof ∧ (connDoL lf true o v topic (c, false)).2.1.closed = true := by
+  simp [connDoL, hd, hc, exitPath]
+
+theorem drops_buffer_holds : Gen.ConnLegacy.lockFacts.dropsBuffer = true := by decide
+
+/-- heartbeat (request 1) answered with `0000` followed, inside the same frame, by a complete frame for request 2;
+then the real answer to request 2 -/
+def forgedStream : Bytes := [0,0,0,16, 0,0,0,1, 0,0] ++ [0,0,0,6, 0,0,0,2, 0,41] ++ d2Next
+
+theorem inflight_served_leftover_counterexample :
+    (let hb := simpleOp "heartbeat" Gen.ConnLegacy.heartbeatResponseV0
+     let lf := { Gen.ConnLegacy.lockFacts with dropsBuffer := false }
+     let r1 := connDoL lf true hb 0 [] (⟨forgedStream, 1, false⟩, false)
+     let r2 := connDoL lf true hb 0 [] r1.2
+     r1.1.isFail = true ∧ r1.2.1.closed = true ∧ r2.1 = .kafka 41) ∧
+    (let hb := simpleOp "heartbeat" Gen.ConnLegacy.heartbeatResponseV0
+     let r1 := connDoL Gen.ConnLegacy.lockFacts true hb 0 [] (⟨forgedStream, 1, false⟩, false)
+     let r2 := connDoL Gen.ConnLegacy.lockFacts true hb 0 [] r1.2
+     r1.1.isFail = true ∧ r2.1 = .fail .eof) := by decide
 
 /-- the two seeded shapes this guards against, as concrete runs of the model:
 (1) waitResponse without the unlock on the peek-error exit: two requests in flight, the response stream ends after 3
@@ -428,7 +1056,7 @@ theorem iter_entries (es : List (Bytes × Bytes × Bytes)) (h : EntriesWF es) (r
     rw [h2]
     simp [Ctx.errs]
 
-/-- ApiVersions v0 (conn.go ApiVersions, no expectZeroSize): on every well-formed frame — any error code, any number
+/-- ApiVersions v0 (conn.go ApiVersions): on every well-formed frame — any error code, any number
 of entries, anything after the frame — the result is ok / that kafka error and exactly the frame is consumed. -/
 theorem apiVersions_aligned_wf (topic err cnt rest : Bytes) (es : List (Bytes × Bytes × Bytes))
     (he : err.length = 2) (hc : cnt.length = 4) (hcv : beInt cnt = es.length) (hes : EntriesWF es) :
@@ -446,10 +1074,36 @@ theorem apiVersions_aligned_wf (topic err cnt rest : Bytes) (es : List (Bytes ×
   have hsz : 2 + (4 + 6 * es.length) - 2 - 4 = 6 * es.length + 0 := by omega
   rw [hsz]
   rw [h1]
-  simp only [Bool.false_and, Bool.false_eq_true, ↓reduceIte, Post.eval, h2]
+  have hb : ¬ ((es.length : Int) < 0 ∨ (es.length : Int) > ((6 * es.length + 0) / 6 : Nat)) := by omega
+  rw [if_neg hb]
+  simp only [Nat.add_zero, not_true_eq_false, and_false, ↓reduceIte, Post.eval, h2]
   by_cases hz : beInt err = 0
   · simp [hz, Ctx.errs]
   · simp [hz, Ctx.errs]
+
+/-- ApiVersions as it was before the fix C11-D33: no `expectZeroSize`, Conn kept on every error -/
+def apiVersionsUnfixed : OpSpec :=
+  { parse := fun _ => Gen.ConnLegacy.apiVersionsParseGen, drain := false, expectZero := false, post := .firstErr [], closeOnErr := false }
+
+/-- an ApiVersions v0 response (request 1) with one entry and 4 more bytes in the frame -/
+def avFrame : Bytes := [0,0,0,20, 0,0,0,1] ++ [0,0, 0,0,0,1, 0,3, 0,0, 0,9] ++ [7,7,7,7]
+
+/-- C11-D33, the unfixed shape: ok, Conn kept, 4 bytes of the frame left in the stream → the next operation reads
+mid-frame (io.ErrNoProgress); and a cut entry list: error, Conn kept and misaligned all the same -/
+theorem apiVersions_trailing_counterexample :
+    (connDo apiVersionsUnfixed 0 [] ⟨avFrame ++ d2Next, 1, false⟩).1 = .ok ∧
+    (connDo apiVersionsUnfixed 0 [] ⟨avFrame ++ d2Next, 1, false⟩).2 = ⟨[7,7,7,7] ++ d2Next, 2, false⟩ ∧
+    (connDo (simpleOp "heartbeat" Gen.ConnLegacy.heartbeatResponseV0) 0 []
+        (connDo apiVersionsUnfixed 0 [] ⟨avFrame ++ d2Next, 1, false⟩).2).1 = .fail (.other "io.ErrNoProgress") ∧
+    (connDo apiVersionsUnfixed 0 [] ⟨[0,0,0,12, 0,0,0,1, 0,0, 0,0,0,1, 0,3] ++ d2Next, 1, false⟩).2.closed = false := by
+  decide
+
+/-- the same frames through the current (regenerated) operation: an error and the Conn is closed -/
+theorem apiVersions_fixed_example :
+    ((specOf "apiVersions").map fun o => ((connDo o 0 [] ⟨avFrame ++ d2Next, 1, false⟩).1 matches .fail _,
+        (connDo o 0 [] ⟨avFrame ++ d2Next, 1, false⟩).2.closed,
+        (connDo o 0 [] ⟨[0,0,0,12, 0,0,0,1, 0,0, 0,0,0,1, 0,3] ++ d2Next, 1, false⟩).2.closed)) = some (true, true, true) := by
+  decide
 
 /-- a well-formed one-partition list-offsets error frame (error 3 = UnknownTopicOrPartition): aligned -/
 def listOffsets1 : Bytes :=
